@@ -127,6 +127,7 @@ fn main() {
                     "builtins" => record::gen_builtins(&mut rec, &mut rng, n),
                     "literals" => record::gen_literals(&mut rec, &mut rng, n),
                     "macros" => record::gen_macros(&mut rec, &mut rng, n),
+                    "bigctx" => record::gen_bigctx(&mut rec, &mut rng, n),
                     other => {
                         eprintln!("unknown generator {other}");
                         std::process::exit(2);
